@@ -177,6 +177,11 @@ def _pin_hypothesis():
 def run_shard(job):
     pid, tname, tier, seed, shard, nshards, deadline, mode, want_sig = job
     out = {"target": tname, "shard": shard, "error": None}
+    covdir = os.environ.get("VF_LINECOV")
+    if covdir:  # diagnostic line coverage of the library (tools/linecov.py); no effect on the verdict
+        from vf import cov
+
+        cov.start(os.path.join(core.REPO, "src") + os.sep)
     try:
         mod = load_prop(pid)
         tgt = {t.name: t for t in mod.targets(tier)}[tname]
@@ -275,6 +280,8 @@ def run_shard(job):
         )
     except BaseException as exc:  # noqa: BLE001
         out["error"] = "".join(traceback.format_exception(type(exc), exc, exc.__traceback__))[-4000:]
+    if covdir:
+        cov.dump(covdir, pid)
     return out
 
 
@@ -436,8 +443,8 @@ def main(argv=None):
         for name, t in by_name.items():
             seen = agg["stats"][name].classes
             for rc in t.required:
-                # "A|B": any one of the alternatives will do (B usually says why A cannot occur on this tree)
-                if all(seen.get(alt, 0) == 0 for alt in rc.split("|")) and not skipped:
+                # "A || B": any one of the alternatives will do (B usually says why A cannot occur on this tree)
+                if all(seen.get(alt, 0) == 0 for alt in rc.split(" || ")) and not skipped:
                     errors.append(f"required class '{rc}' of target {name} never generated")
 
         # ---- failures: known findings vs new violations (shrink new ones)
